@@ -106,9 +106,23 @@ pub fn vp(name: &str) {
             std::process::abort();
         }
     }
-    while s.parked.get(name).copied().unwrap_or(false) {
+    if s.parked.get(name).copied().unwrap_or(false) {
         s.trace.push(format!("parked:{name}"));
-        s = cv.wait(s).unwrap();
+        drop(s);
+        // Blocking a runtime worker would starve the tasks queued on it; hand the worker's
+        // queue to another thread first when we are on a multi-thread tokio runtime.
+        let wait = || {
+            let mut s = m.lock().unwrap();
+            while s.parked.get(name).copied().unwrap_or(false) {
+                s = cv.wait(s).unwrap();
+            }
+        };
+        match tokio::runtime::Handle::try_current() {
+            Ok(h) if h.runtime_flavor() == tokio::runtime::RuntimeFlavor::MultiThread => {
+                tokio::task::block_in_place(wait)
+            }
+            _ => wait(),
+        }
     }
 }
 
